@@ -32,7 +32,8 @@ SingleCfg(x) ==
 SingleCases(cls) ==
   {[kind |-> "base", cls |-> cls, opt |-> "-", val |-> "-"]} \cup
   {x \in [kind : {"single"}, cls : {cls}, opt : SingleOpts(cls), val : Kinds \cup {"ABSENT"}] : x.val \in SingleVals(cls, x.opt)}
-OutOf(cls, cfg) == [expect |-> Expect(cls, cfg), cfg |-> Pairs(cfg), defaults |-> DefaultsOf(cls, cfg)]
+OutOf(cls, cfg) == [expect |-> Expect(cls, cfg), cfg |-> Pairs(cfg), defaults |-> DefaultsOf(cls, cfg),
+                    equiv |-> EquivOpts(cls, cfg)]
 
 (* ---------------------------------------------------------------------- mathx *)
 MathXClasses == IF Big THEN {"FormulaGrader", "MatrixGrader", "SumGrader", "IntegralGrader"} ELSE {"FormulaGrader", "MatrixGrader"}
@@ -162,7 +163,7 @@ SquareSpace(sym) == [kind : {"square"}, symmetry : {sym}, traceless : BOOLEAN, d
 IntervalCases(form) ==
   [kind : {"interval"}, form : {form}, open : {"lsq", "lpar", "lcub", "rsq"} \cup (IF form = "list" THEN {"two"} ELSE {}),
    close : {"rsq", "rpar", "rcub", "lpar"} \cup (IF form = "list" THEN {"two"} ELSE {}), nbounds : 1..3, curly : BOOLEAN,
-   wrap : {"bare", "tuple", "dict"}]
+   wrap : {"bare", "tuple", "dict"}, sub : {"omitted", "none"}]
 
 (* ---------------------------------------------------------------------- two-level enumeration *)
 Seeds ==
@@ -195,7 +196,8 @@ Next ==
        [] Part = "square" -> /\ c' \in SquareSpace(c.symmetry)
                              /\ out' = [expect |-> SquareExpect(c')]
        [] Part = "interval" -> /\ c' \in IntervalCases(c.form)
-                               /\ out' = [expect |-> IntervalExpect(c')]
+                               /\ out' = [expect |-> IF c'.sub = "none" /\ IntervalExpect(c') = "accept" THEN "marker"
+                                                      ELSE IntervalExpect(c')]
 
 (* ---------------------------------------------------------------------- laws *)
 \* table laws: evaluated once per class in the seed states of part "single"
@@ -217,7 +219,15 @@ LawNumericalRefines == (IsCase /\ c.kind \in {"single", "base"} /\ c.cls = "Nume
 LawMatrixExtends == (IsCase /\ c.kind \in {"single", "base"} /\ c.cls = "FormulaGrader" /\ out.expect = "accept" /\ c.opt # "allow_inf"
                      /\ c.val \notin MatrixFnKinds) =>                 \* except overrides of the functions MatrixGrader adds
   Expect("MatrixGrader", SingleCfg(c)) = "accept"
-LawExpectDomain == IsCase => out.expect \in {"accept", "reject", "skip"}
+LawExpectDomain == IsCase => out.expect \in {"accept", "reject", "skip", "marker"}
+\* "use the default" values: dropping them leaves an accepted configuration with the same documented defaults; a marker
+\* verdict arises only from a marker value
+LawEquivNeutral == (IsCase /\ c.kind \in {"single", "mathx"} /\ out.expect \in {"accept", "marker"}) =>
+  LET cfg == IF c.kind = "mathx" THEN MathXCfg(c) ELSE SingleCfg(c)
+      rest == Without(cfg, out.equiv) IN
+  /\ Expect(c.cls, rest) = "accept"
+  /\ DefaultsOf(c.cls, rest) = out.defaults
+  /\ (out.expect = "marker") <=> \E opt \in DOMAIN cfg : <<opt, cfg[opt]>> \in Markers(c.cls)
 \* single deviations: the verdict of the deviating value decides, except where a cross-option rule speaks
 LawSingleVerdict == (IsCase /\ c.kind = "single" /\ c.val # "ABSENT") =>
   LET v == Verdict(c.cls, c.opt, c.val) IN
@@ -228,8 +238,8 @@ LawSingleVerdict == (IsCase /\ c.kind = "single" /\ c.val # "ABSENT") =>
 LawDefaultsComplete == (IsCase /\ c.kind \in {"single", "base", "mathx"}) =>
   LET cfg == IF c.kind = "mathx" THEN MathXCfg(c) ELSE SingleCfg(c)
       named == {p[1] : p \in out.defaults} IN
-  /\ named \cap DOMAIN cfg = {}
-  /\ ("_value" \notin DOMAIN cfg) => (DOMAIN Options[c.cls] \ {"_value"}) \subseteq named \cup DOMAIN cfg
+  /\ named \cap (DOMAIN cfg \ out.equiv) = {}
+  /\ ("_value" \notin DOMAIN cfg \ out.equiv) => (DOMAIN Options[c.cls] \ {"_value"}) \subseteq named \cup DOMAIN cfg
 \* mathx: suppressing warnings never turns an accepted configuration into a refused one, and whitelist+blacklist
 \* is refused whatever else is configured
 LawSuppressMonotone == (IsCase /\ c.kind = "mathx" /\ out.expect = "accept") =>
